@@ -704,9 +704,12 @@ static inline int _mirror_grid_neighbors(double x, unsigned int ddim,
 					 int* nx, int* px)
 {
   int ok = 0;
-  *px = (int)(x+ddim+2);
-  if ((*px>=2) && (*px<=3*(int)ddim+2)) {
+  double aux = x+ddim+2;
+  /* Test the range before converting: the conversion of a NaN or of
+     a value that does not fit an int is undefined */
+  if ((aux>=2) && (aux<3*(double)ddim+3)) {
     ok = 1;
+    *px = (int)aux;
     *px = *px-ddim;
     *nx = *px-3;
   }
